@@ -3,6 +3,7 @@ package chainx
 import (
 	"encoding/json"
 	"fmt"
+	"math/bits"
 	"math/rand"
 	"os"
 	"path/filepath"
@@ -107,6 +108,11 @@ func smallSpecs(seed int64, perRegime, blocks int, sharedWindows bool) (out []Tr
 		{[]int{1, 2, 3, 4}, map[int]string{5: "tx-bad-signature"}, nil},            // extension whose last block is invalid
 		{[]int{1, 2, 3, 4}, map[int]string{4: "v2-commitment"}, nil},               // invalid block inside an extension
 		{[]int{1, 2, 3, 2, 5, 6}, map[int]string{7: "tx-bad-signature"}, nil},      // heavier fork with an invalid tip
+		// a heavier fork that is applied part-way (its blocks have other element counts than the main
+		// chain's at the same heights), fails at its tip and is rolled back; then the MAIN chain is
+		// extended by a block spending old outputs (whatever the store cached during the aborted
+		// reorg must not leak into the supplements it hands out afterwards)
+		{[]int{1, 2, 3, 2, 5, 6, 4}, map[int]string{7: "tx-bad-signature"}, nil},
 		{[]int{1, 2, 3, 2, 5, 6}, map[int]string{6: "tx-double-spend"}, nil},       // heavier fork with an invalid middle
 		{[]int{1, 2, 3, 2, 5, 6}, map[int]string{5: "payout-value"}, nil},          // fork whose first block has a bad header
 		{[]int{1, 2, 3, 4, 2, 6}, map[int]string{5: "ts-future", 7: "nonce"}, nil}, // future block on the main chain, bad header on the fork
@@ -124,10 +130,10 @@ func smallSpecs(seed int64, perRegime, blocks int, sharedWindows bool) (out []Tr
 	}
 	for ri, r := range regimes {
 		for si, sh := range shapes {
-			if si >= perRegime*3 && ri != 2 {
+			if si >= perRegime*3+1 && ri != 2 {
 				break // every shape in the v2-only regime (also the validated path), the first ones elsewhere
 			}
-			if si >= 10 && perRegime < 2 {
+			if si >= 11 && perRegime < 2 {
 				break
 			}
 			bad := map[int]string{}
@@ -139,8 +145,19 @@ func smallSpecs(seed int64, perRegime, blocks int, sharedWindows bool) (out []Tr
 					bad[k] = v
 				}
 			}
-			out = append(out, TreeSpec{Seed: seed*1000 + 500 + int64(ri*10+si), Allow: r[0], Require: r[1], Final: r[2],
-				OpsPerBlk: 2, Shape: sh.shape, Bad: bad, Twins: sh.twins})
+			ts := TreeSpec{Seed: seed*1000 + 500 + int64(ri*10+si), Allow: r[0], Require: r[1], Final: r[2],
+				OpsPerBlk: 2, Shape: sh.shape, Bad: bad, Twins: sh.twins, Scripts: scriptsFor(sh.shape)}
+			if len(sh.shape) == 7 && sh.shape[6] == 4 && ri != 2 {
+				// pick (deterministically) a seed for which the aborted fork's block at the tip's height
+				// has an accumulator size that trims some proof of the later main-chain block differently
+				for k := int64(0); k < 60; k++ {
+					ts.Seed = seed*1000 + 500 + int64(ri*10+si) + 7000*k
+					if abortedReorgSensitive(ts.Build()) {
+						break
+					}
+				}
+			}
+			out = append(out, ts)
 		}
 	}
 	if !sharedWindows {
@@ -174,6 +191,39 @@ func smallSpecs(seed int64, perRegime, blocks int, sharedWindows bool) (out []Tr
 			WarmScripts: [][]string{{"fc1", "fc1", "fc1"}, {"rev1b", "fc1"}}})
 	}
 	return out
+}
+
+// scriptsFor gives the aborted-reorg shape blocks of very different element counts on the two
+// branches and a spend of old outputs in the block that extends the main chain afterwards.
+func scriptsFor(shape []int) map[int][]string {
+	if len(shape) == 7 && shape[6] == 4 {
+		return map[int][]string{5: {"sc1", "sc1", "sc1", "sf1"}, 6: {"sc1", "sc1", "sc1", "sf1"}, 8: {"sc1", "sc1"}}
+	}
+	return nil
+}
+
+// abortedReorgSensitive: in the shape 1-2-3-4(-8) vs 2-5-6-7, does some v1 input of block 8 have a
+// Merkle proof whose length differs between the accumulator sizes after block 4 and after block 6?
+func abortedReorgSensitive(t *mat.Tree) bool {
+	n4, n6, n8 := t.Node(4), t.Node(6), t.Node(8)
+	if n4.L == nil || n6.L == nil || n8.Cls != "ok" {
+		return false
+	}
+	a, b := n4.L.CS.Elements.NumLeaves, n6.L.CS.Elements.NumLeaves
+	plen := func(leaf, num uint64) int { return bits.Len64(leaf^num) - 1 }
+	for _, txn := range n8.Block.Transactions {
+		for _, in := range txn.SiacoinInputs {
+			if e, ok := n4.L.SC[in.ParentID]; ok && plen(e.StateElement.LeafIndex, a) != plen(e.StateElement.LeafIndex, b) {
+				return true
+			}
+		}
+		for _, in := range txn.SiafundInputs {
+			if e, ok := n4.L.SF[in.ParentID]; ok && plen(e.StateElement.LeafIndex, a) != plen(e.StateElement.LeafIndex, b) {
+				return true
+			}
+		}
+	}
+	return false
 }
 
 type genIn struct {
